@@ -68,6 +68,22 @@ def mkparam(N, mins, ds):
             "dx": ds[0], "dy": ds[1], "dz": ds[2]}
 
 
+def with_extras(rng, p):
+    """the same grid described by a dictionary that carries MORE keys, as the ones aurel.parameters() builds from an
+    Einstein Toolkit parameter file do: domain edges xmax/ymax/zmax (generally NOT grid points: for a periodic
+    domain the grid ends one spacing earlier), box lengths, time step, names.  Only N*, *min, d* define the grid."""
+    q = dict(p)
+    kind = rng.choice(("edge", "edge-plus", "inside", "other"))
+    for a in AX:
+        last = p[a + "min"] + (p["N" + a] - 1) * p["d" + a]
+        q[a + "max"] = {"edge": last + p["d" + a], "edge-plus": last + 2.5 * p["d" + a], "inside": last - p["d" + a],
+                        "other": 1234.5}[kind]
+        q["L" + a] = q[a + "max"] - p[a + "min"]
+    q.update({"dtfac": 0.25, "simname": "sim", "simpath": "/nowhere/", "max_refinement_levels": 3,
+              "N" : 7, "min": -1.0, "max": 1.0, "d": 0.1})
+    return q
+
+
 def param_words(p):
     return "%d %d %d %s %s %s %s %s %s" % (p["Nx"], p["Ny"], p["Nz"], frs(p["xmin"]), frs(p["ymin"]),
                                            frs(p["zmin"]), frs(p["dx"]), frs(p["dy"]), frs(p["dz"]))
@@ -282,7 +298,8 @@ def object_cases(ctx):
             N[long_ax] = rng.randint(nmin, nmax)
             ds = [rng.choice(SPACINGS[:9]) for _ in range(3)]
             mins = [rng.choice(MINIMA + [-N[k] * ds[k] / 2]) for k in range(3)]
-            out.append((mkparam(N, mins, ds), order))
+            q = mkparam(N, mins, ds)
+            out.append((with_extras(rng, q) if rng.random() < 0.3 else q, order))
     out.append((mkparam((30, 4, 5), (-10.5, 0.0, -1.0), (0.7, 0.3, 1 / 3)), 4))
     out.append((mkparam((1, 1, 1), (0.0, 0.0, 0.0), (0.1, 0.1, 0.1)), 2))
     out.append((mkparam((5, 0, 5), (0.0, 0.0, 0.0), (0.1, 0.1, 0.1)), 4))
@@ -632,6 +649,9 @@ def search(ctx, deep):
         ds = [rng.choice(SPACINGS[:6] + [rng.uniform(0.01, 2.0)]) for _ in range(3)]
         mins = [rng.choice(MINIMA[:4] + [-N[k] * ds[k] / 2, -(N[k] // 2) * ds[k]]) for k in range(3)]
         p = mkparam(N, mins, ds)
+        if rng.random() < 0.35:
+            p = with_extras(rng, p)
+            ctx.count("oracle_grids_with_extra_keys")
         found += oracle_grid(ctx, p, order)
     # the documented example of the former defect
     found += oracle_grid(ctx, mkparam((30, 4, 4), (-10.5, 0.0, 0.0), (0.7, 0.1, 0.3)), 4)
